@@ -83,7 +83,7 @@ int main(int argc, char** argv)
 	static const char* suiteName[] = { "c03_array", "c03_arrayx", "c03_segarray" };
 	Suite s(c, suiteName[C03_PART], "model ledger");
 	Rec& r = rec(); r.c = &c; r.s = &s; r.family = suiteName[C03_PART];
-	unsigned H = c.thorough ? 400 : 40, N = c.thorough ? 120 : 70;
+	unsigned H = c.thorough ? 300 : 40, N = c.thorough ? 120 : 70;
 
 	using momo::Array; using momo::SegmentedArray; using momo::ArraySettings; using momo::ArrayItemTraits;
 	using momo::SegmentedArraySettings; using momo::SegmentedArrayItemTraits; using momo::SegmentedArrayItemCountFunc;
